@@ -90,6 +90,26 @@ example : (Shrink.run (Shrink.shouldShrink ⟨0, 1, 2⟩) Shrink.init
     = [.bool true, .bool true, .bool true, .bool true, .bool true, .val (some 30), .nat 1,
        .popped (some (3, 30)), .popped none] := by decide
 
+/-- **Iteration runs over a snapshot**: for every shrink rule and after every history, a `ForEach` /
+`ForEachKey` whose first callback deletes every key still reports *all* bindings (keys) of the map and
+leaves the map empty; and a callback that stops after `n` visits is called `min(max(n,1), size)` times —
+at least once on a non-empty map, never more often than there are entries, exactly `n` times when
+`1 ≤ n ≤ size`. -/
+theorem C12_shrink_foreach_snapshot (sh : Nat → Nat → Bool) (ops : List Shrink.Op) (ko : Bool) (n : Nat) :
+    let s := (Shrink.run sh Shrink.init ops).1
+    (Shrink.step sh s (.forEachDel ko)).2 = (if ko then .list (AL.keys s.m) else .pairs s.m) ∧
+    (Shrink.step sh s (.forEachDel ko)).1.m = [] ∧
+    (Shrink.step sh s (.forEachN n)).2 = .nat (Shrink.visits n s.m.length) ∧
+    Shrink.visits n s.m.length ≤ s.m.length ∧ (0 < s.m.length → 1 ≤ Shrink.visits n s.m.length) ∧
+    (1 ≤ n → n ≤ s.m.length → Shrink.visits n s.m.length = n) := by
+  intro s
+  refine ⟨rfl, ?_, rfl, ?_, ?_, ?_⟩
+  · show (Shrink.deleteAll sh s (AL.keys s.m)).m = []
+    rw [Shrink.deleteAll_m, Shrink.foldl_del_keys]
+  · unfold Shrink.visits; omega
+  · unfold Shrink.visits; omega
+  · unfold Shrink.visits; omega
+
 /-! ### ShrinkingMap with several callers: callbacks run inside the critical section
 
 `Delete(key, condition)`, `Compute`, `GetOrCreate` take the write lock first and call the function
